@@ -93,6 +93,38 @@ func applyEdits(src []byte, edits []byteEdit) []byte {
 		case "dup":
 			end := min(len(b), pos+e.N*4)
 			b = append(b[:end:end], append(append([]byte{}, b[pos:end]...), b[end:]...)...)
+		case "strnonmin": // re-encode the first TL1 string holding N bytes 'x' in the next longer (non-minimal) length form
+			pat := make([]byte, e.N)
+			for i := range pat {
+				pat[i] = 'x'
+			}
+			idx := indexAligned(b, pat, e.N)
+			if idx < 0 {
+				break
+			}
+			if e.N <= 253 {
+				p := idx - 1
+				end := p + (1+e.N+3)&^3
+				if end > len(b) {
+					break
+				}
+				re := append([]byte{254, byte(e.N), byte(e.N >> 8), 0}, pat...)
+				for len(re)%4 != 0 {
+					re = append(re, 0)
+				}
+				b = append(b[:p:p], append(re, b[end:]...)...)
+			} else {
+				p := idx - 4
+				end := p + (4+e.N+3)&^3
+				if end > len(b) {
+					break
+				}
+				re := append([]byte{255, byte(e.N), byte(e.N >> 8), byte(e.N >> 16), 0, 0, 0, 0}, pat...)
+				for len(re)%4 != 0 {
+					re = append(re, 0)
+				}
+				b = append(b[:p:p], append(re, b[end:]...)...)
+			}
 		case "tl2big": // replace a byte by a huge-form size/count of about 2^Val
 			if len(b) > 0 {
 				big := []byte{255, 0, 0, 0, 0, 0, 0, 0, 0}
